@@ -1,9 +1,9 @@
 (* C18 - Path hardening never lets a protected directory prefix through.
 
    checkpath (Model/Path.v) is the one function behind Safety, SafetyFiles and
-   the caller file of every record.  [fx = false] is slog/stack.go as it is now
-   (strings.HasPrefix + strings.ReplaceAll), [fx = true] the proposed repair
-   (match on a component boundary, replace the prefix only); Path.boundary_fix
+   the caller file of every record.  [fx = false] is slog/stack.go as it was before the
+   repair 0169cbb (strings.HasPrefix + strings.ReplaceAll), [fx = true] the repaired code of today
+   (match on a component boundary, replace the prefix only); Path.boundary_fix (= true)
    says which one the correspondence check runs against the implementation.
    The map iteration order is the order of the table list; every theorem
    quantifies over every Permutation of the table.  [rel] is filepath.Rel, about
